@@ -152,3 +152,29 @@ Definition run_case_expect (fuel : nat) (P : program) (cs : list call) (impl exp
   let '(mok, mskip) := cmp_model (model_history fuel P (vm_init P) cs) impl in
   let '(sok, _) := cmp_spec expected impl in
   (if mok then 0 else 1) + (if sok then 0 else 2) + (if mskip then 4 else 0).
+
+(** ---- several VMs of one program: each call names its VM; every VM has its own state *)
+Fixpoint model_history_vms (fuel : nat) (P : program) (sts : list (nat * vmstate)) (cs : list (nat * call)) : list obs :=
+  match cs with
+  | [] => []
+  | (k, c) :: r =>
+      let st := match find (fun p => Nat.eqb (fst p) k) sts with Some p => snd p | None => vm_init P end in
+      let '(o, st') := model_call fuel P st c in
+      let sts' := (k, st') :: filter (fun p => negb (Nat.eqb (fst p) k)) sts in
+      o :: match o with ORet _ _ => model_history_vms fuel P sts' r | _ => [] end
+  end.
+Fixpoint spec_history_vms (fuel : nat) (M : module) (gs : list (nat * RefSem.frame)) (cs : list (nat * call)) : list obs :=
+  match cs with
+  | [] => []
+  | (k, c) :: r =>
+      let g := match find (fun p => Nat.eqb (fst p) k) gs with Some p => snd p | None => [] end in
+      let '(o, g') := spec_call fuel M g c in
+      let gs' := (k, g') :: filter (fun p => negb (Nat.eqb (fst p) k)) gs in
+      o :: match o with ORet _ _ => spec_history_vms fuel M gs' r | _ => [] end
+  end.
+Definition run_case_vms (fuel : nat) (M : module) (P : program) (cs : list (nat * call)) (impl : list obs) : Z :=
+  match impl with OSkip _ :: _ => 12 | _ =>
+  let '(mok, mskip) := cmp_model (model_history_vms fuel P [] cs) impl in
+  let '(sok, sskip) := cmp_spec (spec_history_vms fuel M [] cs) impl in
+  (if mok then 0 else 1) + (if sok then 0 else 2) + (if mskip then 4 else 0) + (if sskip then 8 else 0)
+  end.
